@@ -421,7 +421,11 @@ func (c *setCtx) run(sc scen, rng *rand.Rand) []ev {
 					s = 1
 				}
 				rec.Sc = int64(s)
-				lp := bgvlt.Parameters{DiagonalsIndexList: mc.Ks, LevelQ: mc.Lvl, LevelP: sc.LvlP, Scale: c.bp.NewScale(s), LogDimensions: c.logd, LogBabyStepGiantStepRatio: mc.Ratio}
+				msc := c.bp.NewScale(s)
+				if rng.Intn(2) == 0 {
+					msc = rlwe.NewScale(s) // a plain scale, without the plaintext modulus attached
+				}
+				lp := bgvlt.Parameters{DiagonalsIndexList: mc.Ks, LevelQ: mc.Lvl, LevelP: sc.LvlP, Scale: msc, LogDimensions: c.logd, LogBabyStepGiantStepRatio: mc.Ratio}
 				lt := bgvlt.NewLinearTransformation(c.bp, lp)
 				dg := bgvlt.Diagonals[uint64]{}
 				for k, d := range dm {
